@@ -115,9 +115,14 @@ func (c *Chain) newLFBTicket(b *block.Block) (ticket *LFBTicket) {
 }
 
 func (c *Chain) verifyLFBTicket(lfbt *LFBTicket) bool {
-	var sharder = node.GetNode(lfbt.SharderID)
+	// only sharders of the current magic block issue LFB tickets
+	var mb = c.GetCurrentMagicBlock()
+	if mb == nil || mb.Sharders == nil {
+		return false
+	}
+	var sharder = mb.Sharders.GetNode(lfbt.SharderID)
 	if sharder == nil {
-		return false // unknown or missing node
+		return false // unknown or missing node, or not a sharder
 	}
 	var ok, err = sharder.Verify(lfbt.Sign, lfbt.Hash())
 	return err == nil && ok
